@@ -53,9 +53,10 @@ ASSUMPTIONS = [
     "ExcelFormerConv(num_cols = 1) accepts inputs with any number of columns (the [1,1] mask broadcasts) and then "
     "runs unmasked; this configuration is excluded from the model's guard theorem (hypothesis 1 < num_cols) and "
     "is generated only with a 1-column input",
-    "wide inputs (127..300 columns: boundaries of 8-bit integer buffers) are checked by the direct oracle only "
-    "(causality / equivariance / row-wiseness probed at columns around 128 and 256); the provenance model is not run "
-    "on them (cost), and a 16-bit wrap (32768+ columns) is not reachable",
+    "wide inputs (127..300 columns: boundaries of 8-bit integer buffers): the provenance model is not run on them "
+    "(cost); for ExcelFormerConv the integer-comparison model of the mask (mask_allowed over the int64 ids, theorem "
+    "mask_allowed_int64) is compared with the measured footprint rows and the int8 refutation witness is replayed; "
+    "the other layers are checked by the direct oracle only there; a 16-bit wrap (32768+ columns) is not reachable",
     "the Coq side runs with each case's own channels / heads / columns / prompts / out_channels; the head reshape "
     "and the einsum / mask orientation are compared at CHANNEL granularity on the real module with identity q/k/v "
     "projections (attention-core probe); for full-attention layers the column footprint itself is 'everything', so "
@@ -898,7 +899,14 @@ def coq_term(case, obs, kind=None):
     if not obs.get("ok"):
         return None
     if n_in(case) > 16:
-        return None          # wide inputs (128 / 256 boundaries of integer buffers): oracle only, see ASSUMPTIONS
+        # wide inputs: the provenance model is not run; for ExcelFormerConv the integer-comparison model of the mask
+        # (Model/Layers.v mask_allowed over int64 ids) is compared with the measured footprint rows, and the int8
+        # refutation witness is replayed (the measured rows must differ from the int8 prediction from column 128 on)
+        if (kind or case["kind"]) == "excel_conv" and kind is None and obs.get("colfp_cols"):
+            probes = "[" + "; ".join(f"({c}, {P.cbvec(row)})" for c, row in zip(obs["colfp_cols"], obs["colfp"])) + "]"
+            n = n_in(case)
+            return f"(wide_mask_ok {n} {probes} && wide_mask_not_int8 {n} {probes})"
+        return None
     k = kind or case["kind"]
     B, cols, Pn, ch, h, out = case["B"], case["cols"], case["prompts"], case["channels"], case["heads"], case["out"]
     rows = "[" + "; ".join(f"({r}, {P.cnats(chd)})" for r, chd in obs["rows"]) + "]"
